@@ -207,3 +207,13 @@ Definition opv_put_obs (c : (N * text * text * N * option nat * nat) * bool * na
 (** j / k as motions: (text, down?, count, cursor) *)
 Definition vert_obs (c : text * bool * nat * nat) : N :=
   let '(t, down, count, i) := c in N.of_nat (move_vert t down count i).
+
+(** the write phase in two passes with [--backup]: (files present when it starts, payloads in argument order) ->
+    (files afterwards, 0 done / 1 failed) *)
+Definition two_phase_obs (c : list (text * option text) * list (text * text)) : list (text * option text) * N :=
+  let '(fso, l) := c in
+  let o := mkDO (FStandard [32]) false true true (map fst l) in
+  match emit_two_phase o l (mkD (fs_of_obs fso) []) with
+  | (s', Done) => (fs_obs (d_fs s'), 0)
+  | (s', Failed _) => (fs_obs (d_fs s'), 1)
+  end.
